@@ -54,7 +54,7 @@ type sess struct {
 	Srv *p9.Server
 }
 
-// newSess starts a lock-step session. Every fifth session of a process runs
+// newSess starts a lock-step session. Every third session of a process runs
 // over an AF_UNIX socket pair instead of net.Pipe: the property checks are about
 // the protocol, not the transport, so the server's vectorised receive path and
 // its writev send path get the same workloads as the generic ones.
@@ -64,12 +64,12 @@ func newSess(srv *p9.Server, msize uint32, version string) (*sess, rawpeer.Resul
 
 var sessCounter uint64
 
-// altTransport returns socket-pair options for every fifth call, nil otherwise.
+// altTransport returns socket-pair options for every third call, nil otherwise.
 func altTransport() *rawpeer.Options {
 	if os.Getenv("VERIF_NO_SOCK_SESSIONS") != "" {
 		return nil // measurement aid: lock-step sessions over pipes only
 	}
-	if atomic.AddUint64(&sessCounter, 1)%5 == 0 {
+	if atomic.AddUint64(&sessCounter, 1)%3 == 0 {
 		return sockOpts()
 	}
 	return nil
